@@ -105,3 +105,30 @@ impl ProgramLines {
         lines
     }
 }
+
+#[cfg(feature = "verif-hooks")]
+impl ProgramLines {
+    /// Both indexes, so that their agreement is observable.
+    pub(crate) fn verif_snapshot(&self) -> String {
+        let mut keys = self.numbered_lines.keys().copied().collect::<Vec<_>>();
+        keys.sort();
+        let map = keys
+            .iter()
+            .map(|k| {
+                format!(
+                    "{}:{}",
+                    k,
+                    crate::verif_hooks::enc_tokens(self.numbered_lines.get(k).unwrap())
+                )
+            })
+            .collect::<Vec<_>>()
+            .join("|");
+        let sorted = self
+            .sorted_line_numbers
+            .iter()
+            .map(|k| k.to_string())
+            .collect::<Vec<_>>()
+            .join(",");
+        format!("{{{}}} sorted=[{}]", map, sorted)
+    }
+}
